@@ -103,6 +103,26 @@ AGENT_CHECKS = {
         "assumptions": ["R-val-write (harness/p18/rvalwrite.go) is the specification; grammar and 32 KiB context limit taken from the API documentation",
                         "memory datastore, caches off, schema 1.1 models accepted by WriteAuthorizationModel"],
     },
+    "C19": {
+        "pkg": "p19",
+        "runs": [_r("TestC19", 300, 12000, qs=8, ts=16, qt=1500, tt=9000)],
+        "fuzz": [{"target": "FuzzC19Check", "seconds": 1200}, {"target": "FuzzC19Write", "seconds": 1200},
+                 {"target": "FuzzC19Model", "seconds": 1200}, {"target": "FuzzC19Read", "seconds": 1200}],
+        "rule": "one case = a hostile scenario built from small replayable recipes: server options (caches, weighted check, pipeline/optimised ListObjects); a model that is "
+                "valid (shared generator / recursive hand-written), mutated (14 mutations: deep wrap up to depth 300 quick / 2000 thorough and sometimes the transport maximum 4990, "
+                "wide unions, cyclic definitions, hostile names, bad references, hostile conditions/parameters, nil parts, ...) or hostile (DAG and TTU blow-ups, deep chains, "
+                "direct-operand towers, heavy conditions, type rings, degenerate), written through the API and/or straight into the datastore; 0-5 groups of tuples written "
+                "straight into the datastore (userset/TTU rings, chains, 1000-wide fan-outs, malformed / invalid-UTF-8 / huge strings, unknown conditions, contexts nested to "
+                "2000-3330, wide, NaN/Inf, extreme numbers); 3-10 requests over all 24 RPCs incl. AuthZEN with hostile strings, tokens (negative offsets, huge numbers), page "
+                "sizes, nil sub-messages, 100+ contextual tuples, duplicate/empty correlation ids, up to 300 repetitions with distinct values. Every request is delivered as gRPC "
+                "would (marshal/unmarshal) to the public Server method on a fresh server+memory datastore inside a worker process. Non-trivial: a hostile request, or a request "
+                "against hostile state, passed req.Validate() and reached a handler (counted per RPC). Distinct: hash of the case.",
+        "level_text": "exploration: generated hostile scenarios; a panic, process death (stack overflow, goroutine panic, OOM), a call that is still running 5 s after its 1.5 s deadline, or "
+                      ">= 256 MiB heap growth is a violation; clock/heap verdicts must reproduce in a fresh process with a 20 s bound; requests the transport cannot deliver are counted only",
+        "technique": "property-based testing (rapid) with process isolation and fatal-error attribution; 4 native fuzz targets share generator and oracle through a byte data-provider",
+        "assumptions": ["memory datastore", "internal errors (code 4000) count as an answer", "inputs capped by what gRPC delivers (4 MiB, protobuf recursion limit 10000)",
+                        "wall-clock bounds: deadline 1.5 s, +5 s violation, confirmation bound +20 s"],
+    },
     "C22": {
         "pkg": "p22",
         "runs": [_r("TestC22", 20000, 300000, race=True, qt=1500, tt=6000)],
